@@ -60,7 +60,7 @@ var clRoKey = types.NamespacedName{Namespace: trNS, Name: "r"}
 var clWlKey = types.NamespacedName{Namespace: trNS, Name: "wl"}
 
 func clNewSim(c *Ctx, sc clScenario) *clSim {
-	ro, hash := rsBuildRollout(rsRollout{Style: "canary", Steps: sc.Steps, HasTraffic: sc.HasTraffic, Grace: trLongGrace, Reason: "none", Term: "none"})
+	ro, hash := rsBuildRollout(rsRollout{Style: "canary", Steps: sc.Steps, HasTraffic: sc.HasTraffic, Grace: trLongGrace, Reason: "none", Term: "none", RealPartition: true})
 	ro.Status = v1beta1.RolloutStatus{}
 	cs := rsBuildCloneSet(&rsWL{Consistent: true, CanaryRev: "v1", StableRev: "v1", Replicas: sc.Replicas, Generation: 1})
 	cs.Status.UpdatedReadyReplicas = int32(sc.Replicas)
@@ -82,7 +82,7 @@ func (s *clSim) restart() {
 // ---- abstraction of the live cluster ----
 
 func clSpecOf(ro *v1beta1.Rollout) rsRollout {
-	r := rsRollout{Style: "canary", Paused: ro.Spec.Strategy.Paused, Disabled: ro.Spec.Disabled, Reason: "none", Term: "none"}
+	r := rsRollout{Style: "canary", Paused: ro.Spec.Strategy.Paused, Disabled: ro.Spec.Disabled, Reason: "none", Term: "none", RealPartition: true}
 	var steps []v1beta1.CanaryStep
 	if ro.Spec.Strategy.Canary != nil {
 		steps = ro.Spec.Strategy.Canary.Steps
@@ -136,6 +136,7 @@ func (s *clSim) world() (rsWorld, bool) {
 		wl := &rsWL{Consistent: cs.Generation == cs.Status.ObservedGeneration, Replicas: int(*cs.Spec.Replicas), Generation: int(cs.Generation)}
 		_, wl.InProgressAnno = cs.Annotations[util.InRolloutProgressingAnnotation]
 		wl.CanaryRev = cs.Status.UpdateRevision[strings.LastIndex(cs.Status.UpdateRevision, "-")+1:]
+		wl.PodTemplateHash = wl.CanaryRev
 		wl.StableRev = cs.Status.CurrentRevision[strings.LastIndex(cs.Status.CurrentRevision, "-")+1:]
 		wl.InRollback = wl.InProgressAnno && cs.Status.CurrentRevision == cs.Status.UpdateRevision && cs.Status.UpdatedReplicas != cs.Status.Replicas
 		w.WL = wl
